@@ -786,13 +786,25 @@ class Interp:
             dadt = dl.get("adt")
             if dadt and dadt.split("::")[0] in self.fx.crates:
                 src = self.deref(args[0])
+                # the static type of the argument decides between impls that differ only in type arguments (`From<Term<Prd>>` / `From<Term<Cns>>`)
+                a0 = t["args"][0]
+                aty = fr.f["locals"][a0["pl"]["l"]]["ty"] if a0.get("k") in ("copy", "move") and not a0["pl"]["p"] else None
+
+                def _short(ty_):
+                    return re.sub(r"[A-Za-z_0-9]+::", "", ty_ or "").replace(" ", "")
+                cands = []
                 for imp in self.fx.impls:
                     if imp.get("trait") == "core::convert::From" and imp.get("self_adt") == dadt:
                         for m in imp["methods"]:
                             if m["name"] == "from" and m["key"] in self.fx.fns:
                                 pty = self.fx.fns[m["key"]]["locals"][1]["ty"]
                                 if _value_matches_type(src, pty):
-                                    key = m["key"]
+                                    cands.append((m["key"], pty))
+                exact = [k_ for k_, pty in cands if aty and _short(pty) == _short(aty)]
+                if exact:
+                    key = exact[0]
+                elif cands:
+                    key = cands[-1][0]
         if key is None and t.get("callee_name") == "collect" and args and isinstance(self.deref(args[0]), Iter) and self.deref(args[0]).items is not None:
             # collect() into a workspace type: its own FromIterator impl does the work
             dl = fr.f["locals"][t["dest"]["l"]]
